@@ -326,6 +326,8 @@ def patterns_facts(tree, fs):
     F["operators"] = [(c, super_operator(need(fs, c + ".__init__"))) for c in OPERATOR_CLASSES]
     F["make_constant"] = dispatch(need(fs, "make_constant"))
     F["create_component"] = dispatch(need(fs, "_ObjectPathComponent.create_ObjectPathComponent"))
+    mop = need(fs, "ObjectPath.make_object_path")
+    F["make_object_path"] = " ; ".join(un(x) for x in strip_doc(mop.body)).replace("\n", " ")
     F["hex_regexes"] = regex_texts(need(fs, "HexConstant.__init__"))
     F["binary_regexes"] = regex_texts(need(fs, "BinaryConstant.__init__"))
     w = need(fs, "WithinQualifier.__init__")
@@ -459,6 +461,8 @@ def translate(repo, _py=None):
          "",
          "Definition src_make_constant : list string := " + clist([cstr(x) for x in P["make_constant"]]) + ".",
          "Definition src_create_component : list string := " + clist([cstr(x) for x in P["create_component"]]) + ".",
+         "(* ObjectPath.make_object_path: the statements of its body *)",
+         "Definition src_make_object_path : string := " + cstr(P["make_object_path"]) + ".",
          ""]
     F = {"flags": fl, "visitor": V, "patterns": P}
     return "\n".join(L), F
